@@ -15,7 +15,10 @@ PROP = {
         # the defect repaired by fix 5846d09, kept as a witness over the Old model (WmModel/RouteOld.lean)
         "Wm.Route.Old.stale_context_shows_through", "Wm.Route.Old.agrees_on_nonempty",
         "Wm.Route.handleOne_fn", "Wm.Route.publishes_only_own", "Wm.Route.done_context_irrelevant",
-        "Wm.Route.returned_outputs_published", "Wm.Route.published_iff",
+        "Wm.Route.returned_outputs_published", "Wm.Route.outputs_keep_own_context", "Wm.Route.published_iff",
+        # RunHandlers as an operation on the router state
+        "Wm.Route.rexec_keeps_started", "Wm.Route.runHandlers_idempotent", "Wm.Route.decorated_exactly_once",
+        "Wm.Route.unstarted_undecorated",
         "Wm.Route.nopub_middleware_outputs_nack", "Wm.Route.routes_to_own_fn", "Wm.Route.route_order_irrelevant",
         "Wm.Route.only_own_function", "Wm.Route.subscriptions_bijective",
     ],
@@ -43,13 +46,20 @@ PROP = {
             "AddNoPublisherHandler, nil publisher, empty publish topic; done_context: about 1 in 10 random messages and 6 fixed cases "
             "(every output shape x {context already cancelled at delivery, cancelled by the function during the call, deadline the "
             "function overruns} at publisher / middleware-output / no-publisher / nil-publisher handlers sharing the subscription, "
-            "with and without stale values) - the function returns normally, so outputs must be published as returned. Observation canonical per handler (Go map order in "
+            "with and without stale values) - the function returns normally, so outputs must be published as returned; "
+            "runhandlers_steps: 8 fixed programs and about a third of the random configurations are built in steps - recording "
+            "publisher / subscriber decorators (AddPublisherDecorators / AddSubscriberDecorators), Run, handlers added to the running "
+            "router, RunHandlers one to three times in a row, more decorators in between - then messages through all handlers: every "
+            "Publish call must have passed each publisher decorator registered before ITS handler's start exactly once, every "
+            "consumed message each such subscriber decorator exactly once. Every message object (consumed copy, each fresh output, "
+            "each middleware output) carries a marker on its OWN context from its creation; the publisher records for every element "
+            "of every call which marker its context still has (own context kept, none replaced by another element's). Observation canonical per handler (Go map order in "
             "RunHandlers is random). Oracles: model observation equality and the property monitor. Non-trivial = >= 2 handlers and "
             ">= 1 Publish call or no-publisher Nack.",
     "trusted_base": [
         "Lean 4.33.0 kernel; axioms per theorem listed under theorem_axioms (subset of propext, Classical.choice, Quot.sound)",
         "extractor harness/cmd/extract/c08.go (go/ast: the set statements of handler.addHandlerContext with their guards if any, the "
-        "key each of the five accessors reads, the values of the key constants; 25 structural facts: the exact control-flow skeletons of handleMessage and publishProducedMessages, five unconditional WithValue sets,  AddHandler stores its parameters and computes the "
+        "key each of the five accessors reads, the values of the key constants; 26 structural facts: RunHandlers decorates inside its one loop after the started-guard, the exact control-flow skeletons of handleMessage and publishProducedMessages, five unconditional WithValue sets,  AddHandler stores its parameters and computes the "
         "type names from its own objects, RunHandlers subscribes h.subscriber on h.subscribeTopic and gives the channel to the same "
         "handler, handleMessage passes the returned slice untouched through addHandlerContext to one Publish(h.publishTopic, "
         "produced...) on h.publisher, guards for empty output / nil publisher, disabledPublisher) and the interpreter "
@@ -74,6 +84,10 @@ PROP = {
         "the message acked (model field Delivery.done is ignored by handleOne; theorems done_context_irrelevant, "
         "returned_outputs_published). The monitor demands the publication (the statement's clause); the Ack is compared with the "
         "model only, since C08's statement speaks about settlement only for the no-publisher case.",
+        "'unmodified' also covers what the router does AROUND the handler's publisher and to the message contexts: an output "
+        "passes each publisher decorator registered before its handler's start exactly once (RunHandlers decorates only handlers "
+        "with started = false, model Wm.Route.rstep; theorems runHandlers_idempotent, decorated_exactly_once), and each produced "
+        "message's context stays a child of that message's own context (theorem outputs_keep_own_context).",
         "Message objects are not shared between two handlers at the same time (that would be a data race on SetContext).",
     ],
     "explanation": "routes_to_own_fn / only_own_function / route_order_irrelevant: for every configuration, script and map order a "
@@ -90,7 +104,7 @@ PROP = {
                   "obey the model's law on every run; model and an independent monitor are compared with the real Router on all "
                   "two-handler wirings and on random configurations of 1..6 handlers with interleaved streams.",
     "level_note": "Proved about the model, not about the Go code; the routing theorems are close to the model's definitions, the "
-                  "weight is on the correspondence (differential harness with pointer-identity recording publishers, 25 structural "
+                  "weight is on the correspondence (differential harness with pointer-identity recording publishers, 26 structural "
                   "facts, generated context code + 4 tie theorems, -race). The context clause is proved without a guard on the "
                   "incoming context (fix 5846d09); the pre-fix behaviour is kept as an Old witness model.",
     "technique": "Lean 4 theorems over a hand-written executable model + generated deep-embedded context code with tie theorems + "
